@@ -486,14 +486,18 @@ def clone_slot(base, slot):
 
 # ---------------------------------------------------------------- native replay
 
-def build_replay(profile, logdir):
-    """Build bin/replay natively (real code, no stubs). Returns path or None."""
+def build_replay(profile, logdir, env_extra=None):
+    """Build bin/replay natively (real code, no stubs). Returns path or None.
+    The obligation's VH_* parameters are compile-time constants of the harness (option_env!), so
+    they are passed to the build as well (cargo rebuilds the harness crate when they change)."""
     tdir = os.path.join(WORK, "tgt", "native")
     cmd = ["cargo", "build", "--offline", "--bin", "replay", "--target-dir", tdir]
     if profile == "release":
         cmd.append("--release")
     env = base_env()
     env["RUSTFLAGS"] = "--cfg grin_verif"  # the cfg-guarded hooks of /repo (MANIFEST.hooks)
+    if env_extra:
+        env.update({k: str(v) for k, v in env_extra.items()})
     with open(os.path.join(logdir, "native_build_%s.log" % profile), "w") as f:
         p = subprocess.run(cmd, cwd=CRATE, env=env, stdout=f, stderr=subprocess.STDOUT)
     if p.returncode != 0:
@@ -503,7 +507,7 @@ def build_replay(profile, logdir):
 
 def native_replay(harness, vals, profile, logdir, out_path, env_extra=None):
     """Run the counterexample natively. Returns (reproduced: bool|None, text)."""
-    exe = build_replay(profile, logdir)
+    exe = build_replay(profile, logdir, env_extra)
     if exe is None:
         return None, "native replay build failed (%s)" % profile
     with open(out_path, "w") as f:
